@@ -55,6 +55,10 @@ import (
 //                               done and exits WITHOUT a teardown                  -> ok|notopen / sent|dropped|notstalled / resumed|silent|teardown|notstalled
 //   disconnect <p>              Manager.Disconnect(id)                             -> ok | notfound
 //   disconnectall               Manager.DisconnectAll()                            -> ok
+//   disconnectall-re <p>        DisconnectAll; from inside the transport Close of p's connection its read loop's
+//                               teardown is released and p reconnects inbound      -> ok registered c<k> | nopeer
+//   sendhold <p> / sendfail     Manager.SendToPeer(p) with the transport write held by the script; later the held
+//                               write fails                                         -> held|nopeer / ok|notheld
 //   readerr <c>                 the held read error of c surfaces: the read loop runs its teardown -> ok | noloop
 //   learn <p> <n>               n routes with next hop p enter the route table     -> ok | noconn
 //   relay <p> <q>               a relay entry between p and q is created           -> ok | noconn
@@ -92,6 +96,9 @@ type c32World struct {
 
 	outMu   sync.Mutex
 	outNext transport.PeerConn // the connection the agent's next outbound dial gets (nil: dial fails)
+
+	held     *c32Conn // connection whose writes are held (sendhold)
+	sendDone chan struct{}
 
 	blockMu sync.Mutex
 	blocked map[uint64]chan struct{} // frames whose handler is held by the script: stream id -> gate
@@ -590,6 +597,92 @@ func c32Run(line string) string {
 	case "disconnectall":
 		_ = w.m.DisconnectAll()
 		return "ok"
+	case "disconnectall-re": // DisconnectAll; the moment the connection of peer p is closed, its read loop notices and
+		// the peer reconnects inbound — i.e. possibly while the other peers are still being closed
+		p := num(1)
+		var old *c32Conn
+		for _, c := range w.conns {
+			if c.registered && c.local != nil && c.local == w.m.GetPeer(c32ID(p)) {
+				old = c
+			}
+		}
+		if old == nil {
+			return "nopeer"
+		}
+		res := ""
+		fin := make(chan struct{})
+		old.end.sh.onClose = func() {
+			old.end.sh.onClose = nil
+			go func() { // p's side of things, as soon as its connection is completely closed
+				defer close(fin)
+				select {
+				case <-old.local.Done():
+				case <-time.After(2 * time.Second):
+				}
+				w.drainDone()
+				old.released = true
+				old.end.releaseReadErrors()
+				w.waitDone(2 * time.Second)
+				res = w.connect("in", p)
+			}()
+		}
+		for _, c := range w.conns { // the close of every OTHER connection waits until p is back
+			if c != old && c.registered && !c.localClosed() {
+				c := c
+				c.end.sh.onClose = func() {
+					c.end.sh.onClose = nil
+					if old.end.isClosed() {
+						select {
+						case <-fin:
+						case <-time.After(4 * time.Second):
+						}
+					}
+				}
+			}
+		}
+		_ = w.m.DisconnectAll()
+		select {
+		case <-fin:
+		case <-time.After(4 * time.Second):
+		}
+		return "ok " + res
+	case "sendhold": // Manager.SendToPeer(p) whose write on the transport is held by the script
+		p := num(1)
+		var cur *c32Conn
+		for _, c := range w.conns {
+			if c.registered && c.local != nil && c.local == w.m.GetPeer(c32ID(p)) {
+				cur = c
+			}
+		}
+		if cur == nil || w.held != nil {
+			return "nopeer"
+		}
+		cur.end.holdWrites()
+		w.held = cur
+		w.sendDone = make(chan struct{})
+		go func() {
+			_ = w.m.SendToPeer(c32ID(p), &protocol.Frame{Type: protocol.FrameStreamData, StreamID: 7, Payload: []byte{1}})
+			close(w.sendDone)
+		}()
+		deadline := time.Now().Add(time.Second)
+		for cur.end.blockedWriters() == 0 && time.Now().Before(deadline) {
+			time.Sleep(100 * time.Microsecond)
+		}
+		return "held"
+	case "sendfail": // the held write now fails (the transport of that connection is long gone)
+		if w.held == nil {
+			return "notheld"
+		}
+		w.drainDone()
+		w.held.end.releaseWrites(true)
+		w.held = nil
+		select {
+		case <-w.sendDone:
+		case <-time.After(2 * time.Second):
+			return "send-did-not-return"
+		}
+		w.waitDone(200 * time.Millisecond) // a teardown that the failed send (wrongly) caused
+		return "ok"
 	case "readerr":
 		c := w.conn(f[1])
 		if c == nil || !c.registered || c.released || c.silent || !c.end.isClosed() {
@@ -680,14 +773,43 @@ func init() {
 			dir := func() string { return r.pickS("in", "out") }
 			for i := 0; i < cases; i++ {
 				p("reset")
-				kind := r.intn(11)
+				kind := r.intn(13)
 				if i < 2 {
 					kind = 6 // every run stresses simultaneous registration
-				} else if i < 6 {
+				} else if i < 8 {
 					kind = 5 + i // ... and has the cases 7 (frame in flight at close), 8 (keepalive timeout),
-					// 9 (duplicate through the agent's accept/connect paths), 10 (blocked frame handler)
+					// 9 (duplicate through the agent's accept/connect paths), 10 (blocked frame handler),
+					// 11 (late send error), 12 (reconnect during DisconnectAll)
 				}
 				switch kind {
+				case 11: // a send picked up connection 0, its transport write hangs; 0 dies, the peer reconnects; the write fails late
+					p("connect %s 1", dir())
+					p("connect %s 2", dir())
+					p("learn 1 1")
+					p("sendhold 1")
+					p("disconnect 1")
+					p("readerr 0")
+					p("connect %s 1", dir())
+					p("learn 1 %d", r.pick(2, 3))
+					p("relay 1 2")
+					p("sendfail")
+					obs()
+					p("frame 2")
+				case 12: // DisconnectAll with several peers; peer 1 reconnects inbound the moment its connection is closed
+					for round := 0; round < 2; round++ {
+						for q := 1; q <= 4; q++ {
+							p("connect %s %d", dir(), q)
+						}
+						p("learn 1 1")
+						p("disconnectall-re 1")
+						p("peer 1")
+						p("learn 1 2")
+						p("connect in 1")
+						p("peer 1")
+						p("routes 1")
+						p("disconnect 1")
+					}
+					obs()
 				case 9: // a second handshake with the identity of a connected peer, through the agent's own accept /
 					// connect paths: the first connection stays registered, open, delivering, its routes intact
 					p("connect %s 1", dir())
